@@ -660,7 +660,8 @@ class Model:
                 o.tags = [t for t in o.tags if t is not None]
         if o.kind == "Parent" and U.cfg["fav"]:
             o.fav = self.by_uid("Child", row["fav"]) if row.get("fav") is not None else None
-        o.stale = False
+        if really_expired:
+            o.stale = False
 
     def m_commit(self):
         self.m_flush()
